@@ -35,9 +35,14 @@ def description(rng: random.Random, n_ops=3, allow_body_scalar=True):
     def pick_schema():
         m = rng.random()
         if m < 0.45:
-            r = {"$ref": "#/components/schemas/S%d" % rng.randrange(2)}
-            if rng.random() < 0.5:      # keywords next to the reference (merged by the normaliser)
-                r[rng.choice(["maximum", "minLength"])] = rng.choice([2, 3])
+            i = rng.randrange(2)
+            r = {"$ref": "#/components/schemas/S%d" % i}
+            if rng.random() < 0.5 and "enum" not in pool[i]:      # keywords next to the reference (merged by the normaliser);
+                t = pool[i].get("type")                             # an enum stays the only assertion of its schema (C01 dialect)
+                if t == "string" and "maxLength" not in pool[i] and "minLength" not in pool[i]:
+                    r["minLength"] = rng.choice([2, 3])
+                elif t in ("number", "integer") and "maximum" not in pool[i] and "exclusiveMaximum" not in pool[i]:
+                    r["maximum"] = pool[i].get("minimum", pool[i].get("exclusiveMinimum", 0)) + rng.choice([2, 3, 10])
             return r
         return copy.deepcopy(rng.choice(pool))
 
